@@ -191,6 +191,12 @@ def _job(job):
         for s in TINY:
             for k in range(4, 13):
                 check_stream(part, s[:k], "request", cfgname, cfg, {}, ("tiny", k), full=True)
+    elif kind == "response-limits":
+        cfg = {k: v for k, v in REQ_CONFIGS[cfgname].items()}
+        mls, mfs = cfg.get("max_line_size", 8190), cfg.get("max_field_size", 8190)
+        if mls <= 1000:
+            for label, s in hc.response_limit_streams(mls, mfs):
+                check_stream(part, s, "response", cfgname, cfg, {}, label, two_cuts=two)
     elif kind == "response":
         cfg = {k: v for k, v in REQ_CONFIGS[cfgname].items()}
         label, s, pkw = hc.response_streams()[group]
@@ -225,6 +231,7 @@ def run(ctx):
         jobs.append(("tiny", None, c, False))
         for r in range(len(hc.response_streams())):
             jobs.append(("response", r, c, True))
+        jobs.append(("response-limits", None, c, True))
     for part in ctx.pmap(_job, jobs):
         ctx.merge(part)
     ctx.notes["configs"] = cfgs
